@@ -122,6 +122,57 @@ def judge_multi(case, rc, out):
     return None
 
 
+# ---- extraction that cannot deliver the bytes: the output file cannot take them (file size limit), or it cannot be
+#      created at all (its parent is a regular file, its name is a directory)
+
+def limited_cases(rnd, sd_all, quick, blksize):
+    """(archive, limit, tag): members of 300 000 bytes and more extracted with RLIMIT_FSIZE = limit (SIGXFSZ ignored, so
+    the write fails with EFBIG).  Every limit is at least two stdio buffers short of the member's length: the failing
+    write is then one the library makes itself, not the final flush inside fclose."""
+    res = []
+    n = 300000
+    data = bytes(rnd.randrange(256) for _ in range(n))
+    members = [(b"-lh0-", data, n, crc16(data))]
+    big = sorted((s for s in sd_all if 300000 <= s["length"] <= 2200000 and s["method"] not in ("-lh0-", "-lz4-", "-pm0-", "-lhd-")),
+                 key=lambda s: len(s["data"]))
+    seen = set()
+    for s in big:
+        if s["method"] not in seen and len(seen) < (2 if quick else 6):
+            seen.add(s["method"])
+            members.append((s["method"].encode(), s["data"], s["length"], s["crc"]))
+    for meth, d, ln, crc in members:
+        for lim in ([0, 4096, 10000, 100000] if quick else [0, 1, 4095, 4096, 4097, 10000, 65536, 100000, 200000]):
+            if ln - lim > 2 * max(blksize, 4096) + 70000:
+                res.append((mk_archive(meth, d, ln, crc, level=rnd.choice([0, 1, 2])), lim, "limit:%s:%d" % (meth.decode(), lim)))
+    return res
+
+
+def blocked_cases(rnd):
+    """(archive, command, name of the member that cannot be extracted, tag)"""
+    res = []
+    d1, d2 = b"first", b"second member"
+    for lv in (1, 2):
+        # a regular file `a`, then a member `a/b`: its parent directory cannot be made
+        import test_rdr as T
+        arc = _member(b"-lh0-", d1, len(d1), crc16(d1), b"a", lv) + \
+            T.header(lv, b"-lh0-", len(d2), len(d2), crc16(d2), b"a/b") + d2 + b"\0"
+        for cmd in ("x", "xf", "xq", "xq1", "xq2", "xfq2"):
+            res.append((arc, cmd, b"a/b", "blocked:parent-is-a-file:" + cmd))
+        # a symbolic link `lnk` to nowhere, then a member `lnk/f`: the parent is neither a directory nor can it be made
+        import test_rdr as T
+        arc3 = T.link_member(rnd, b"lnk", b"nowhere", lv).bytes() + \
+            T.header(lv, b"-lh0-", len(d2), len(d2), crc16(d2), b"lnk/f") + d2 + b"\0"
+        for cmd in ("x", "xf", "xq", "xq1", "xq2", "xfq2"):
+            res.append((arc3, cmd, b"lnk/f", "blocked:parent-cannot-be-made:" + cmd))
+        # a directory `d/`, then a regular file called `d`: the output file cannot be created
+        fd = {"level": 2, "method": b"-lhd-", "clen": 0, "length": 0, "crc": 0, "attr": 0x10, "os": ord('U'), "time": 1000000000,
+              "exts": [(2, b"d\xff")]}
+        arc2 = lb.build_header(fd) + mk_archive(b"-lh0-", d2, len(d2), crc16(d2), name=b"d", level=lv)
+        for cmd in ("xf", "xfq1", "xfq2"):
+            res.append((arc2, cmd, b"d", "blocked:name-is-a-directory:" + cmd))
+    return res
+
+
 def run(ctx):
     rnd = random.Random(ctx.seed * 982451653 + 7)
     cb = CBuild(PID)
@@ -273,20 +324,91 @@ def run(ctx):
                 viol.append({"property": PID, "kind": "wrong-exit-status-or-verdict-line", "command": mc[1], "patterns": mc[2],
                              "members": [(n.decode(), v) for n, v, _ in mc[3]], "what": why, "exit_status": r[0],
                              "archive_hex": mc[0].hex()[:200000], "case_tag": mc[4], "sig": "multi:" + mc[4].split(":")[0]})
+        # ---- extraction that cannot deliver the bytes (file size limit; parent is a file; name is a directory): no 'Melted',
+        #      exit status non-zero
+        import subprocess, resource, signal
+        sd_all = seeds.harvest(cb)
+        lcases = limited_cases(rnd, sd_all, ctx.quick, os.stat(scratch).st_blksize)
+        bcases = blocked_cases(rnd)
+
+        def run_limited(i, a, cmd, lim):
+            d = os.path.join(scratch, "l%d" % i)
+            os.makedirs(d, exist_ok=True)
+            if os.geteuid() == 0:
+                os.chown(d, 65534, 65534)
+            open(os.path.join(d, "a.lzh"), "wb").write(a)
+
+            def pre():
+                signal.signal(signal.SIGXFSZ, signal.SIG_IGN)
+                if lim is not None:
+                    resource.setrlimit(resource.RLIMIT_FSIZE, (lim, lim))
+            e = dict(os.environ)
+            e.update(common.ASAN_ENV)
+            e["TZ"] = "UTC"
+            argv = (common.NOBODY if os.geteuid() == 0 else []) + [lha, cmd, "a.lzh"]
+            try:
+                p_ = subprocess.run(argv, cwd=d, input=b"", stdout=subprocess.PIPE, stderr=subprocess.PIPE, timeout=120, env=e, preexec_fn=pre)
+                rc, out, err = p_.returncode, p_.stdout, p_.stderr
+            except subprocess.TimeoutExpired:
+                rc, out, err = -999, b"", b"TIMEOUT"
+            files = {}
+            for root, _ds, fs in os.walk(d):
+                for f_ in fs:
+                    if f_ != "a.lzh":
+                        pth = os.path.join(root, f_)
+                        files[os.path.relpath(pth, d)] = open(pth, "rb").read() if os.path.isfile(pth) and not os.path.islink(pth) else None
+            shutil.rmtree(d, ignore_errors=True)
+            return rc, out, err, files
+        with ThreadPoolExecutor(max_workers=common.NCPU) as ex:
+            lres = list(ex.map(lambda j: run_limited(j[0], j[1][0], "xf", j[1][1]), enumerate(lcases)))
+            bres = list(ex.map(lambda j: run_limited(10000 + j[0], j[1][0], j[1][1], None), enumerate(bcases)))
+        for (a, lim, tag), (rc, out, err, files) in zip(lcases, lres):
+            dist["limit"] += 1
+            hdr = _parse_first(a)
+            ab = common.abnormal(rc, err)
+            got = files.get("f.bin")
+            complete = got is not None and len(got) == hdr["length"] and crc16(got) == hdr["crc"]
+            if ab:
+                viol.append({"property": PID, "kind": "tool-abnormal-termination", "archive_hex": a.hex()[:100000], "observed": ab, "sig": "crash"})
+            elif (rc == 0 or b"Melted" in out) and not complete:
+                viol.append({"property": PID, "kind": "melted-although-the-file-is-incomplete", "command": "xf", "file_size_limit": lim,
+                             "exit_status": rc, "reported": out[-80:].decode("latin1"), "file_len": None if got is None else len(got),
+                             "recorded_length": hdr["length"], "case_tag": tag, "archive_hex": a.hex()[:700000],
+                             "what": "the output file could not take the member's bytes (RLIMIT_FSIZE, SIGXFSZ ignored), yet extraction "
+                                     "reported success", "sig": "limit"})
+        for (a, cmd, name, tag), (rc, out, err, files) in zip(bcases, bres):
+            dist["blocked"] += 1
+            ab = common.abnormal(rc, err)
+            if ab:
+                viol.append({"property": PID, "kind": "tool-abnormal-termination", "archive_hex": a.hex()[:100000], "command": cmd,
+                             "observed": ab, "sig": "crash"})
+            elif rc == 0 or name + b"\t- Melted" in out:
+                viol.append({"property": PID, "kind": "success-although-nothing-was-extracted", "command": cmd, "member": name.decode(),
+                             "exit_status": rc, "reported": out[-120:].decode("latin1"), "case_tag": tag, "archive_hex": a.hex(),
+                             "what": "a selected member could not be extracted at all (no bytes produced), yet the exit status is 0 "
+                                     "or a Melted line was printed", "sig": "blocked"})
         # ---- the library's own return values (lha_reader_check / lha_reader_extract), also when the member has been
         #      read, checked or extracted before: a success must still mean "the bytes written / checked match"
         import test_rdr as T, itertools
         CDIR = common.CDIR
         drv = cb.compile("drv_rdr", [os.path.join(CDIR, "drv_rdr.c")] + cb.lib_sources(), extra=["-I" + CDIR], sanitize=True)
-        pool = T.Pool(cb, [drv], rnd)
+        # (the generated archives take their members from the repository's archives by EXTRACTING them with the library under
+        # test; when that no longer works the tie is reported as broken, and what the parts above have found still counts)
+        try:
+            pool = T.Pool(cb, [drv], rnd)
+        except Exception:
+            import traceback
+            pool = None
+            ctx.broken.append({"kind": "harness", "what": "member harvest for the generated library histories failed",
+                               "detail": traceback.format_exc()[-1500:]})
         lib_lines = []
         seqs = [["n", "x"], ["n", "c"], ["n", "c", "x"], ["n", "r5", "x"], ["n", "r100000", "x"], ["n", "x", "x"], ["n", "c", "c"],
                 ["n", "r7", "c"], ["n", "x", "n", "c", "x"], ["n", "c", "xf" + b"again".hex()]]
-        arcs = [a for nm, a in T.small_archives(pool, rnd) if nm in ("lh0", "lh5+lh0", "badcrc", "badlen", "truncated", "mac")]
+        arcs = [a for nm, a in T.small_archives(pool, rnd) if nm in ("lh0", "lh5+lh0", "badcrc", "badlen", "truncated", "mac")] if pool else []
         for a in arcs:
             for sq in seqs:
                 lib_lines.append(T.case(rnd.choice(T.KINDS), "eod", a, sq))
-        for _ in range(60 if ctx.quick else 2000):
+        for _ in range((60 if ctx.quick else 2000) if pool else 0):
             a, ms = T.random_archive(pool, rnd)
             ops = []
             for _m in range(min(len(ms) + 1, 6)):
@@ -314,7 +436,47 @@ def run(ctx):
                     hs += T.header(rnd.choice([0, 1, 2, 3]), method, n, length, crc, b"k%d%s" % (i, k.encode())) + data
                     exp += [None, opk + ("=1" if k == "good" else "=0")]
                 known.append((T.case(rnd.choice(T.KINDS), "plain", hs + b"\0", ["n", opk] * len(shape)), exp))
+        # MacOS members inside a MacBinary envelope (stored): the verdict is about the member's stored stream -- envelope, both
+        # forks and the padding, of which only one fork is handed to the caller -- so everything after the delivered fork
+        # (a resource fork of 129 .. 9000 bytes, the padding) still has to be decoded and counted: good when the stream is
+        # intact, bad when one bit of the part that is not delivered is flipped
+        for dlen, rlen in ((40, 129), (1, 300), (300, 4500), (5, 9000), (0, 700), (200, 0)):
+            for bad_at in (None, "tail", "envelope"):
+                for opk in ("c", "xm"):
+                    fn = b"mac%d" % rlen
+                    dfork = bytes((i * 7 + 3) & 0xff for i in range(dlen))
+                    rfork = bytes((i * 5 + 1) & 0xff for i in range(rlen))
+                    body = dfork + rfork
+                    body += bytes(-len(body) % 128)
+                    data = bytearray(T.macbinary_header(fn, dlen, rlen, T.T_A) + body)
+                    crc = crc16(bytes(data))
+                    if bad_at == "tail":
+                        data[len(data) - 1 - rnd.randrange(max(1, len(data) - 128 - max(dlen, 1)))] ^= 1 << rnd.randrange(8)
+                    elif bad_at == "envelope":
+                        data[0x41 + rnd.randrange(8)] ^= 1 << rnd.randrange(8)         # file type / creator: ignored by the detection
+                    h = T.header(rnd.choice([1, 2, 3]), b"-lh0-", len(data), len(data), crc, fn, T.MAC, None, None, T.T_A)
+                    known.append((T.case(rnd.choice(T.KINDS), "plain", h + bytes(data) + b"\0", ["n", opk]),
+                                  [None, opk + ("=1" if bad_at is None else "=0")]))
+        # MacOS-type members WITHOUT an envelope (MacLHA's "non-Mac" archives, or data that merely resembles one): what is
+        # handed to the caller is the whole member, so an extract that returns 1 must have written exactly the recorded bytes
+        plain_mac = {}        # index in known -> (name, data)
+        for n in (1, 127, 128, 129, 300, 4096, 5000):
+            for lv in (1, 2):
+                fn = b"pm%d_%d" % (n, lv)
+                data = bytes(((i * 11 + 5) & 0xff) | 1 for i in range(n))            # first byte odd: not an envelope
+                h = T.header(lv, b"-lh0-", n, n, crc16(data), fn, T.MAC, None, None, T.T_A)
+                plain_mac[len(known)] = (fn, data)
+                known.append((T.case(rnd.choice(T.KINDS), "plain", h + data + b"\0", ["n", "x"]), [None, "x=1"]))
         kout = common.run_lines_parallel([drv], [l for l, _ in known])
+        for i_, (fn, data) in plain_mac.items():
+            c = kout[i_]
+            if "|" in c and "CHILD-FAILED" not in c and " x=1" in " " + c.split("|")[0]:
+                ent = T.parse_dump(c.split("|", 1)[1]).get(b"root/" + fn)
+                if ent is None or ent[0] != "F" or ent[3] != data:
+                    viol.append({"property": PID, "kind": "library-extract-succeeds-with-wrong-bytes", "case": known[i_][0], "ops": "n,x",
+                                 "expected": "x=1", "observed": "x=1", "file_len": None if ent is None or ent[3] is None else len(ent[3]),
+                                 "recorded_length": len(data), "what": "MacOS-type member without an envelope: lha_reader_extract returned 1 "
+                                 "but the file does not hold the member's bytes", "sig": "library-verdict"})
         for (l, exp), c in zip(known, kout):
             dist["library:known-verdict"] += 1
             if "CHILD-FAILED" in c or "|" not in c:
@@ -343,7 +505,7 @@ def run(ctx):
                              "ops": l.split()[5], "observed": c.split("|")[0][:600], "sig": "library-verdict"})
             elif c != m and not (m.endswith("FAULT 1411") or m.endswith("FAULT 1414")):
                 lib_mism.append({"case": l[:6000], "c": c.split("|")[0][-500:], "model": m.split("|")[0][-500:]})
-        cov = {"evaluations": 3 * len(cases) + len(lib_lines) + len(mcases) + len(known), "distinct_nontrivial": nontriv,
+        cov = {"evaluations": 3 * len(cases) + len(lib_lines) + len(mcases) + len(known) + len(lcases) + len(bcases), "distinct_nontrivial": nontriv,
                "rule": "single-member archives: stored members of many sizes (valid; wrong CRC; length +-1; the archive cut at every "
                        "offset of the data, densely near the end; for members <= 64 bytes a burst of width 1..16 at every bit offset, "
                        "LSB-first numbering) with the expected verdict computed by the harness; members of every method from the "
@@ -356,7 +518,11 @@ def run(ctx):
                        "members of methods without a decoder, run with t/x/e, the quiet levels q q0 q1 q2, f, i, v and with member "
                        "patterns selecting the good ones, one failing one, or all: exit status non-zero iff a selected member fails, one "
                        "Tested/Melted or CRC error/Failure line per selected member when not quiet; the same kinds of member through "
-                       "lha_reader_check / lha_reader_extract with and without a monitor against verdicts known to the harness. "
+                       "lha_reader_check / lha_reader_extract with and without a monitor against verdicts known to the harness; "
+                       "members of 300 000 bytes and more (stored and compressed) extracted under a file size limit that makes a write of the "
+                       "library fail (limits 0 .. 100000/200000, every one at least two stdio buffers short of the length): no Melted, exit status "
+                       "non-zero unless the file is complete; members that cannot be extracted at all (parent path is a regular file; the "
+                       "name is an existing directory) with x/xf and the quiet levels: exit status non-zero, no Melted line. "
                        "non-trivial = case whose header was reached",
                "distribution": dict(dist), "samples": [cases[0][0].hex()[:120], cases[-1][0].hex()[:120]]}
         return {"violations": viol[:10], "mismatches": lib_mism[:10], "coverage": cov,
@@ -400,6 +566,21 @@ def replay(payload):
             print("observed:", o.split("|")[0][-600:])
             print("expected:", payload.get("expected"), " recorded:", payload.get("observed"))
             bad = payload.get("expected") is not None and payload.get("observed", "") in o
+            print("REPRODUCED" if bad else "not reproduced")
+            return 1 if bad else 0
+        if payload.get("kind") in ("melted-although-the-file-is-incomplete", "success-although-nothing-was-extracted"):
+            import subprocess, resource, signal
+            lha = common.build_lha(cb)
+            open(os.path.join(d, "a.lzh"), "wb").write(bytes.fromhex(payload["archive_hex"]))
+            lim = payload.get("file_size_limit")
+
+            def pre():
+                signal.signal(signal.SIGXFSZ, signal.SIG_IGN)
+                if lim is not None:
+                    resource.setrlimit(resource.RLIMIT_FSIZE, (lim, lim))
+            p_ = subprocess.run([lha, payload["command"], "a.lzh"], cwd=d, input=b"", stdout=subprocess.PIPE, stderr=subprocess.PIPE, preexec_fn=pre)
+            print(p_.stdout.decode("latin1")[-300:], p_.stderr.decode("latin1")[-200:], "exit", p_.returncode)
+            bad = p_.returncode == 0 or b"Melted" in p_.stdout
             print("REPRODUCED" if bad else "not reproduced")
             return 1 if bad else 0
         if "command" in payload and payload.get("kind") == "wrong-exit-status-or-verdict-line":
